@@ -284,6 +284,20 @@ def degenerate(ctx, fn):
     # each of the three causes alone must take the exit: the test is false only when none of them holds
     from ..flow import guard_implies
 
+    def power_of(x, kind, depth=0):
+        # the radius itself, |radius|, or a product of it with itself (zero exactly when the radius is zero or underflows)
+        while isinstance(x, ast.Call) and isinstance(x.func, ast.Name) and x.func.id == "abs" and len(x.args) == 1:
+            x = x.args[0]
+        if isinstance(x, ast.Name):
+            if x.id == kind:
+                return True
+            defs = [n.value for n in ast.walk(fn) if isinstance(n, ast.Assign) and len(n.targets) == 1 and isinstance(n.targets[0], ast.Name) and n.targets[0].id == x.id
+                    and n.lineno < deg.lineno]
+            return depth < 3 and len(defs) == 1 and power_of(defs[0], kind, depth + 1)
+        if isinstance(x, ast.BinOp) and isinstance(x.op, ast.Mult):
+            return power_of(x.left, kind, depth) and power_of(x.right, kind, depth)
+        return False
+
     def cause(kind):
         def atom_test(test, positive):
             if positive:
@@ -292,7 +306,7 @@ def degenerate(ctx, fn):
                 return isinstance(test, ast.Compare) and len(test.ops) == 1 and isinstance(test.ops[0], ast.Eq) and {ast.unparse(test.left), ast.unparse(test.comparators[0])} == {"start", "end"}
             if isinstance(test, ast.Compare) and len(test.ops) == 1 and isinstance(test.ops[0], ast.Eq):
                 sides = [test.left, test.comparators[0]]
-                return any(isinstance(x, ast.Name) and x.id == kind for x in sides) and any(isinstance(x, ast.Constant) and x.value == 0 and not isinstance(x.value, bool) for x in sides)
+                return any(power_of(x, kind) for x in sides) and any(isinstance(x, ast.Constant) and x.value == 0 and not isinstance(x.value, bool) for x in sides)
             return False
         return atom_test
 
